@@ -156,11 +156,13 @@ def run(ctx) -> None:
                 continue
             known = name in n2p
             tail = "ack log" if proto == "tcp" else "log"
-            for side in ("src", "dst"):
+            for side, pspell in (("src", proto), ("dst", proto), ("dst", "6" if proto == "tcp" else "17"), ("dst2", proto)):
                 if side == "src":
-                    text = f"permit {proto} any eq {name} any eq 1 {tail}"
+                    text = f"permit {pspell} any eq {name} any eq 1 {tail}"
+                elif side == "dst2":  # the name after a numeric operand (multi-port lists on IOS) is rejected elsewhere: keep one operand
+                    text = f"permit {pspell} any any neq {name} {tail}"
                 else:
-                    text = f"permit {proto} any eq 1 any eq {name} {tail}"
+                    text = f"permit {pspell} any eq 1 any eq {name} {tail}"
                 case = {"text": text, "platform": platform, "version": version}
                 try:
                     ace = Ace(text, platform=platform, version=version)
@@ -173,6 +175,8 @@ def run(ctx) -> None:
                 else:
                     port = ace.srcport if side == "src" else ace.dstport
                     other = ace.dstport if side == "src" else ace.srcport
+                    if side == "dst2":
+                        other = type("P", (), {"items": [1]})()
                     want = names.PORT[proto].get(name)
                     if name in ace.option.flags or name in ace.option.line.split():
                         ctx.violation(case, "a port name was treated as an option", ace.option.line)
@@ -197,7 +201,7 @@ def run(ctx) -> None:
                         except reader.ReadError as ex:
                             ctx.violation(case, "rendered line unreadable", f"{alt.line!r}: {ex}")
                 ctx.count("splitter_cases_judged")
-            ctx.judged(sig=("split", platform, version, proto, name), n=2)
+            ctx.judged(sig=("split", platform, version, proto, name), n=4)
 
     # 4. numbers: rendered name is accepted back and maps to the same number
     thorough = ctx.tier == "thorough"
